@@ -342,19 +342,28 @@ EvalNode(n, env, fuel) ==
          IF v.k = "ref" THEN EvalSeq(v.a, 1, [v.env EXCEPT !.at = env.at, !.queue = env.queue], fuel) ELSE Ok(<<>>)
 
 (* ---------------- JS / CSS dependencies (C04) ---------------------------- *)
-\* comps[c].assets = [js, css : inline code token ("" / blank = none), mjs, mcss : Media file
-\* sequences, base : index of the class it subclasses (0: none), ext : Media.extend].
+\* comps[c].assets = [js, css : inline code text ("" / blank = none; any text - it is delivered as it is,
+\* character by character, whatever it contains: backslash sequences, quotes, ...), mjs, mcss : Media file
+\* sequences, base : index of the class it subclasses (0: none), ext : Media.extend (boolean form),
+\* optional extl : Media.extend (list form)].
 \* Deps(P, insts): what the final document must deliver for the instances rendered into it.
 RECURSIVE Dedupe(_, _)
 Dedupe(s, i) == IF i > Len(s) THEN <<>>
                 ELSE (IF \E j \in 1..(i - 1) : s[j] = s[i] THEN <<>> ELSE <<s[i]>>) \o Dedupe(s, i + 1)
 RenderedClasses(insts) == Dedupe([k \in 1..Len(insts) |-> insts[k][2]], 1)     \* first-appearance order
 NonBlank(code) == code # "" /\ code # " "
+\* Inherited Media (docs "Controlling Media Inheritance"): by default (ext, also when the class writes no Media
+\* class at all or a Media class that lists no file of its own) the files of the parent class are inherited;
+\* Media.extend = False inherits nothing; Media.extend = [classes] (optional field extl: indices of classes
+\* defined earlier) inherits "ONLY from the specified components, and NOT from the original parent" - and what
+\* is inherited from a class is ITS whole media (own + inherited in turn).  How an empty Media class is spelled
+\* (field mform) does not matter.
 RECURSIVE MediaFiles(_, _, _)
 MediaFiles(P, c, t) ==
   LET a == P.comps[c].assets
       own == Range(IF t = "js" THEN a.mjs ELSE a.mcss) IN
-  own \cup (IF a.base # 0 /\ a.ext THEN MediaFiles(P, a.base, t) ELSE {})
+  own \cup (IF "extl" \in DOMAIN a THEN UNION {MediaFiles(P, a.extl[k], t) : k \in DOMAIN a.extl}
+            ELSE IF a.base # 0 /\ a.ext THEN MediaFiles(P, a.base, t) ELSE {})
 Deps(P, insts) ==
   LET rc == RenderedClasses(insts)
       js == SelectSeq(rc, LAMBDA c : NonBlank(P.comps[c].assets.js))
